@@ -557,6 +557,12 @@ INV_TEMPLATES = (
     ('with-comp', 'if q():\n    with cm([{n} for {n} in it()]) as {n}:\n        pass'),
     ('while-walrus', 'while ({n} := q()):\n    if q():\n        break\n    {n} = v()'),
     ('assign-walrus-value', 'if q():\n    {n} = v(({n} := v()))\nelse:\n    {n} = v()'),
+    # the test of a conditional expression is evaluated first although it stands after the body: the name it binds
+    # is visible from the start of the expression, the one the body binds only after it (the for/with templates above
+    # stopped being inverted when for targets became visible from their own position)
+    ('ifexp-test-and-body-walrus', 'v(({n} := v()) if ({n} := q()) else v())'),
+    ('ifexp-test-and-body-walrus-in-if', 'if q():\n    v(({n} := v(1)) if ({n} := q()) else v())'),
+    ('ifexp-test-and-body-walrus-call', 'v(v(({n} := v())) if v(({n} := q())) else 0)'),
 )
 INV_HELPERS = ('def v(*a, **k):\n    return object()\n\n\ndef q(*a):\n    return True\n\n\ndef it(*a):\n    return []\n\n\n'
                'class cm(object):\n    def __init__(self, *a):\n        pass\n\n    def __enter__(self):\n        return self\n\n'
